@@ -55,6 +55,32 @@ CHECKS = {
             "no Err item without failure, every transport outcome examined; the acknowledgement parser accepts exactly 80 00 and "
             "read_packet propagates parse errors. All paths, all fault positions.",
             "Fault kinds are abstracted to 'the step returned Err'; that each fault kind makes the step return Err is C02/C04/C15. " + TB),
+    "C07": ("other", "5.7",
+            "guard/edge-dominance, who-may-write and provenance rules over the async client bodies (MIR)",
+            "Per-call facts that make the token map a refinement of the open pre-authorisations: guards dominate all terminal traffic, "
+            "refusals return the documented error without traffic, the map is private and mutated only at the three allowed sites, what is "
+            "recorded is (token, StatusInformation.receipt_no of this reservation), reversals act on exactly the removed receipt number.",
+            "The induction over call histories from these per-call facts is argued in DESIGN.md, not mechanised. " + TB),
+    "C08": ("other", "5.8",
+            "expression-tree comparison of request/summary construction with a wiring table; callee identity of saturating_sub",
+            "The released amount is usize::saturating_sub(configured amount, final amount as usize) by resolved callee and operand "
+            "provenance; every request field and every summary field is wired from the source the specification names.",
+            "Numeric formatting of date/time strings and the terminal's ledger are not decided. " + TB),
+    "C18": ("other", "5.18",
+            "edge-dominance of CardInfo constructor sites; operation-set/constant/order rules on the uid variable's definitions",
+            "Bank only under (!subs.is_empty() && subs[0].application_id.is_some()), MembershipCard only under subs.is_empty(); the "
+            "membership id derives from tlv.uuid through exactly upper-case, [len-14..] and strip_prefix(\"000000\") under len > 14; "
+            "abort handling as C20.", TB),
+    "C19": ("other", "5.19",
+            "edge-dominance / cut-reachability / call-order rules and who-may-call tables over the client",
+            "end_of_day is only reachable on the true edge of is_empty(transactions); every successful commit/cancel that leaves the map "
+            "empty has passed end_of_day (failure propagated); clean-up (query FFFF, reverse what is reported) dominates the End-of-Day "
+            "exchange; EndOfDay is started nowhere else.", TB),
+    "C20": ("other", "5.20",
+            "abort-arm region analysis: return classification and provenance of the error from the packet's result code",
+            "For all nine client functions the Abort arm of the reply match never returns Ok, never continues the loop, and its error is "
+            "built from the packet's `error` byte; the three documented translations sit on the edge of exactly their code. Covers all 256 "
+            "codes because no other code is inspected.", TB),
 }
 
 NOT_YET = "check not yet built in this commit (under construction, see DESIGN.md section 10)"
